@@ -519,6 +519,40 @@ void h_alloc_reset_leak(void)
     VF_END();
 }
 
+/* the aliasing cases DFCC cannot set up with two is_fresh parameters: both pointers already
+ * refer to the same allocation.  Explicit objects, symbolic counters, loop-free: a complete
+ * check of the two operations for every counter state. */
+void h_same_block(void)
+{
+    static vf_blk_t blk;
+    static char mem[8];
+    cstl_shared_ptr_t e, n, sp;
+    cstl_weak_ptr_t w;
+    size_t hard = (vf_w_hard = nondet_size_t()), soft = (vf_w_soft = nondet_size_t());
+    __CPROVER_assume(2 <= hard && hard < soft && soft < CNT_MAX - 2);
+    HARD(&blk) = hard; SOFT(&blk) = soft;
+    atomic_flag_clear(&blk.ref.lock);
+    cstl_unique_ptr_init(&blk.up);
+    cstl_guarded_ptr_set(&blk.up.gp, mem);
+    cstl_guarded_ptr_set(&e.data, &blk);
+    cstl_guarded_ptr_set(&n.data, &blk);
+    cstl_guarded_ptr_set(&sp.data, &blk);
+    cstl_guarded_ptr_set(&w.data, &blk);
+    vf_clr_calls = 0;
+    /* share onto a co-owner: re-targeting n is a net no-op */
+    cstl_shared_ptr_share(&e, &n);
+    VF_ASSERT(GP_OK(&n.data) && n.data.ptr == (void *)&blk && e.data.ptr == (void *)&blk, "share onto a co-owner: both still refer to the allocation");
+    VF_ASSERT(HARD(&blk) == hard && SOFT(&blk) == soft && MEM(&blk) == (void *)mem && vf_clr_calls == 0,
+              "share onto a co-owner: counters unchanged, nothing destroyed");
+    /* lock onto a co-owner */
+    cstl_weak_ptr_lock(&w, &sp);
+    VF_ASSERT(GP_OK(&sp.data) && sp.data.ptr == (void *)&blk && HARD(&blk) == hard && SOFT(&blk) == soft && !LOCKED(&blk) &&
+              MEM(&blk) == (void *)mem && vf_clr_calls == 0, "lock onto a co-owner: counters unchanged, nothing destroyed");
+    VF_ASSERT(cstl_shared_ptr_get_const(&e) == (const void *)mem && cstl_shared_ptr_get_const(&n) == (const void *)mem &&
+              !cstl_shared_ptr_unique(&e), "co-owners see the same address; unique() is false");
+    VF_END();
+}
+
 void h_sp_alloc(void)
 {
     cstl_shared_ptr_t * sp; size_t sz = nondet_size_t();
